@@ -79,33 +79,21 @@ class C22(Check):
         seen_bt = False
         after_bt_assert = False
         verdicts = set()
-        unchecked = 0            # literals on the trail asserted since the last check
-        unchecked_backtrack = False  # a backtrack kept literals the theory solver had not checked yet
-        prev_len = 0
+        sat_len = 0                  # trail length covered by the last check that answered SAT
+        unchecked_backtrack = False  # a backtrack kept literals that no successful check has covered yet
         for e in log:
             if e.get('ev') != 't-step':
                 continue
             bump(res, 'steps')
             cur_len = len(e['trail'])
-            if e['op'] == 'assert' and e['res'] == 'OK':
-                unchecked += 1
-            elif e['op'] in ('check', 'check-complete') and e['res'] != 'UNSAT':
-                unchecked = 0
+            if e['op'] in ('check', 'check-complete') and e['res'] == 'SAT':
+                sat_len = cur_len
             if e['op'] == 'backtrack' or e['res'] == 'UNSAT':
-                # after this step the trail is shorter; literals asserted since the last check may survive
-                if e['op'] == 'backtrack':
-                    removed = prev_len - cur_len
-                    unchecked = max(0, unchecked - removed)
-                    if unchecked > 0:
-                        unchecked_backtrack = True
-                        bump(res, 'P-unchecked-backtrack')
-                else:
-                    # UNSAT: the engine pops down to below the highest conflict literal; be conservative
-                    if e['op'] == 'assert' and unchecked > 1:
-                        unchecked_backtrack = True
-                        bump(res, 'P-unchecked-backtrack')
-                    unchecked = 0 if e['op'] != 'assert' else max(0, unchecked - 1)
-            prev_len = cur_len
+                after = cur_len if e['op'] == 'backtrack' else e.get('after', cur_len)
+                if after > sat_len:
+                    unchecked_backtrack = True
+                    bump(res, 'P-unchecked-backtrack')
+                sat_len = min(sat_len, after)
             if e['op'] == 'backtrack':
                 seen_bt = True
                 continue
